@@ -210,7 +210,8 @@ MANIFEST_ENTRY = {
                  'ints through the real LocalizationStorage filter',
     'text': 'Every handle list of length <= 3 over 10 handle kinds x 4 MDIB shapes x contextstates_in_getmdib is answered by the real '
             'handlers and compared with the BICEPS selection rules (set equality and at-most-once separately); every path of '
-            'filter_localized_texts for <= 4 stored texts with symbolic versions / line counts satisfies the given constraints.',
+            'filter_localized_texts for <= 4 stored texts with symbolic versions / line counts satisfies the given constraints, also when '
+            'the storage is filled in two steps with queries in between.',
     'note': 'The state-query part is exhaustive enumeration of a finite selector space by path forking (handles must be concrete for '
             'lxml). Trusted: CrossHair/z3 path exhaustion, the loop-back transport stub (socket layer only), the reference selection.',
 }
